@@ -195,38 +195,61 @@ def r9_1(ctx: Ctx, L: Loop, rule="R9.1"):
            "the first argument of the acceptance call is the energy of the held configuration: its reaching "
            "definitions are the initial evaluation and the unconditional copy of the accepted proposal's energy"
            + ("" if ok_e0 else " -- definitions reaching `%s`: %s" % (L.e0, facts)), node=L.acc_call, definitions=facts)
-    # E1: energy of this iteration's proposal
+    # E1: energy of this iteration's proposal.  Path statement: on every path through the loop body that builds a
+    # proposal and reaches the acceptance test, an evaluation `e1 = energy(proposal)` lies between the last
+    # definition of the proposal and the test (whether each branch evaluates its own proposal or one evaluation
+    # follows the branches) - otherwise the test would use an energy left over from an earlier iteration, or the
+    # energy of another configuration.
     defs1 = L.rd.at(node, L.e1) if L.e1.isidentifier() else []
-    ok_e1 = bool(defs1)
+
+    def is_eval(x):
+        return isinstance(x, ast.Assign) and norm(x.targets[0]) == L.e1 and isinstance(x.value, ast.Call) \
+            and norm(x.value.func) == L.energy and x.value.args and norm(x.value.args[0]) == L.proposal
+
+    def is_prop(x):
+        return isinstance(x, ast.Assign) and norm(x.targets[0]) == L.proposal
+    prop_ok: Dict[int, bool] = {}
+    prop_node: Dict[int, ast.AST] = {}
+    eval_bad: Dict[int, str] = {}
+    for p_ in enum_paths(L.loop.body):
+        seq = []
+        reached = False
+        for ev in p_.events:
+            if ev[0] == "s":
+                seq.append(ev[1])
+            elif ev[0] == "c" and any(x is L.acc_call for x in ast.walk(ev[1])):
+                reached = True
+                break
+        if not reached:
+            continue
+        props = [i for i, x in enumerate(seq) if is_prop(x)]
+        if not props:
+            continue
+        lastp = props[-1]
+        evals = [i for i, x in enumerate(seq) if is_eval(x) and i > lastp]
+        other_e1 = [i for i, x in enumerate(seq) if isinstance(x, ast.Assign) and norm(x.targets[0]) == L.e1 and not is_eval(x) and i > lastp]
+        good = bool(evals) and not [i for i in other_e1 if i > evals[-1]]
+        for i in props:
+            prop_node[id(seq[i])] = seq[i]
+            prop_ok[id(seq[i])] = prop_ok.get(id(seq[i]), True) and good
+        for i in other_e1:
+            eval_bad[id(seq[i])] = norm(seq[i])
+    for k_, s in prop_node.items():
+        ctx.ob(rule, f, s, prop_ok[k_],
+               "the proposal built here is evaluated (`%s = %s(%s)`) before the acceptance test" % (L.e1, L.energy, L.proposal)
+               + ("" if prop_ok[k_] else " -- no evaluation follows: the acceptance test would use an energy left over "
+                  "from an earlier iteration"), node=s)
     facts1 = []
+    ok_e1 = bool(defs1)
     for d in defs1:
         a = d.ast
-        good = isinstance(a, ast.Assign) and isinstance(a.value, ast.Call) and norm(a.value.func) == L.energy \
-            and a.value.args and norm(a.value.args[0]) == L.proposal and any(a is x for x in ast.walk(L.loop))
-        if good:
-            # the proposal evaluated is the one defined just before, in the same block
-            nd = L.cfg.node_of(a)
-            pdefs = L.rd.at(nd, L.proposal)
-            blk = _block_of(a, L.pm)
-            good = len(pdefs) == 1 and pdefs[0].ast is not None and blk is not None and any(pdefs[0].ast is s for s in blk) \
-                and pdefs[0].ast.lineno < a.lineno
-        facts1.append("%s%s" % (norm(a), "" if good else " (not energy(proposal) right after the proposal's definition)"))
+        good = a is not None and is_eval(a) and any(a is x for x in ast.walk(L.loop))
+        facts1.append("%s%s" % (norm(a), "" if good else " (not %s(%s) of this iteration's proposal)" % (L.energy, L.proposal)))
         ok_e1 &= bool(good)
-    # every proposal built in the loop is evaluated in its own block (otherwise a stale energy from an
-    # earlier iteration reaches the acceptance call)
-    for s in walk_no_nested(L.loop):
-        if isinstance(s, ast.Assign) and norm(s.targets[0]) == L.proposal:
-            blk = _block_of(s, L.pm) or []
-            later = [x for x in blk[blk.index(s) + 1:] if isinstance(x, ast.Assign) and norm(x.targets[0]) == L.e1
-                     and isinstance(x.value, ast.Call) and norm(x.value.func) == L.energy and x.value.args
-                     and norm(x.value.args[0]) == L.proposal] if s in blk else []
-            ctx.ob(rule, f, s, bool(later),
-                   "the proposal built here is evaluated (`%s = %s(%s)`) before the acceptance test" % (L.e1, L.energy, L.proposal)
-                   + ("" if later else " -- no evaluation follows: the acceptance test would use an energy left over "
-                      "from an earlier iteration"), node=s)
+    ok_e1 = ok_e1 and all(prop_ok.values()) and bool(prop_ok)
     ctx.ob(rule, f, "definitions of `%s` reaching the acceptance call" % L.e1, ok_e1 and len(defs1) >= 1,
-           "the second argument is the energy of the proposal built in the same iteration, evaluated directly "
-           "after the proposal is built" + ("" if ok_e1 else " -- %s" % facts1), node=L.acc_call, definitions=facts1)
+           "the second argument is the energy of the proposal built in the same iteration, evaluated after the last "
+           "definition of that proposal" + ("" if ok_e1 else " -- %s" % facts1), node=L.acc_call, definitions=facts1)
     ctx.extra["roles"] = {"held": L.held, "held_energy": L.e0, "proposal": L.proposal, "proposal_energy": L.e1,
                           "energy_function": L.energy, "counter": L.counter, "budget": L.budget}
 
